@@ -66,7 +66,7 @@ class CvarCase(Case):
 
     def inputs(self, env):
         n = self.n
-        ow = env.reals("ow", self.K, lo=0, hi=1)
+        ow = env.reals("ow", self.K, lo=-1, hi=2)   # objective weights may be negative as long as they sum to one
         env.assume(ssum(list(ow)) == 1)
         failed = [env.flag(f"failed_{i}") for i in range(n)]
         p = env.real("p", lo=0, hi=1)
@@ -133,10 +133,11 @@ class RoundingCase(Case):
 
     family = "cvar-rounding"
 
-    def __init__(self, cid, n, nfail=0):
+    def __init__(self, cid, n, nfail=0, check_sum=False):
         self.id = cid
         self.n = n
         self.nfail = nfail
+        self.check_sum = check_sum   # the Float64 sum obligation costs 10-20 s per path: thorough tier only
 
     def describe(self):
         return f"Float64 percentile, n={self.n} successful (+{self.nfail} failed)"
@@ -173,11 +174,34 @@ class RoundingCase(Case):
                 props.append((f"w{i}.nonnegative", SB(z3.Not(z3.fpLT(t, zero)))))
                 props.append((f"w{i}.at_most_one_over_n", SB(z3.fpLEQ(t, z3.FPVal(slack, z3.Float64())))))
                 props.append((f"w{i}.not_nan", SB(z3.Not(z3.fpIsNaN(t)))))
+            # no more (near-)full weights than the percentile allows: k_full/n <= p (comparisons with constants only)
+            F64 = z3.Float64()
+            thr = pmax * (1 - 2.0**-40)
+            nfull_c = sum(1 for x in items if not isinstance(x, SF) and x.to_float() >= thr)
+            sym = [x for x in items if isinstance(x, SF)]
+            pt = inp["p"].t
+            ok = z3.fpGEQ(pt, z3.FPVal(nfull_c / self.n - 1e-9, F64))
+            for x in sym:
+                ok = z3.And(ok, z3.Implies(z3.fpGEQ(x.t, z3.FPVal(thr, F64)), z3.fpGEQ(pt, z3.FPVal((nfull_c + 1) / self.n - 1e-9, F64))))
+            props.append(("full_weights_do_not_exceed_percentile", SB(ok)))
+            if self.check_sum:
+                # the weights add up to the percentile (1e-9); concrete entries are summed first
+                rne = z3.RNE()
+                conc = sum(x.to_float() for x in items if not isinstance(x, SF))
+                acc = z3.FPVal(conc, F64)
+                for x in sym:
+                    acc = z3.fpAdd(rne, acc, x.t)
+                diff = z3.fpAbs(z3.fpSub(rne, acc, pt))
+                props.append(("sum_is_percentile", SB(z3.fpLEQ(diff, z3.FPVal(1e-9, F64)))))
         else:
             for i, x in enumerate(items):
                 props.append((f"w{i}.nonnegative", SB(not x < 0.0)))
                 props.append((f"w{i}.at_most_one_over_n", SB(x <= slack)))
                 props.append((f"w{i}.not_nan", SB(x == x)))
+            thr = pmax * (1 - 2.0**-40)
+            props.append(("full_weights_do_not_exceed_percentile", SB(sum(1 for x in items if x >= thr) / self.n - 1e-9 <= inp["p"])))
+            if self.check_sum:
+                props.append(("sum_is_percentile", SB(abs(sum(items) - inp["p"]) <= 1e-9)))
         return props
 
     def observe(self, env, inp, oc):
@@ -202,7 +226,7 @@ def build_cases(tier):
         add(CvarCase, n=3 if tier == "quick" else 4, kind="constraint", bounds=b)
         add(CvarCase, n=2, kind="constraint", bounds=b)
     for n in range(1, (12 if tier == "quick" else 40) + 1):
-        add(RoundingCase, n)
+        add(RoundingCase, n, check_sum=(tier == "thorough" and n <= 12))
     add(RoundingCase, 5, 2)
     add(RoundingCase, 10, 1)
     return cases
